@@ -2,7 +2,7 @@
    For EVERY predicate bus/settle and search bound FUEL.  cnt_oc a b = number of business days in
    (a, b]; cnt_co a b = number in [a, b)  ("counting the result, not the start"). *)
 From Coq Require Import ZArith List Bool.
-From RL Require Import Base.Outcome Model.Dates Model.Calendar Proofs.CalendarP Proofs.CalExt.
+From RL Require Import Base.Outcome Model.Dates Model.Calendar Model.SubDay Proofs.CalendarP Proofs.CalExt Proofs.SubDayP.
 Import ListNotations.
 Open Scope Z_scope.
 
@@ -62,6 +62,13 @@ Theorem C05_listing_free : forall c c', same_listing c c' -> forall FUEL,
   (forall d k m r s, add_months (cal_is_bus c) (cal_is_settle c) FUEL d k m r s = add_months (cal_is_bus c') (cal_is_settle c') FUEL d k m r s) /\
   (forall a e, bus_date_range (cal_is_bus c) (cal_is_settle c) FUEL a e = bus_date_range (cal_is_bus c') (cal_is_settle c') FUEL a e).
 Proof. exact (fun c c' SL FUEL => proj2 (cal_ops_listing_free c c' SL FUEL)). Qed.
+
+(* start DATETIMES with a time of day t (seconds after midnight): the business-day and settlement predicates the datetime (d, t)
+   sees are those of the calendar `ucal_at u t` (u itself at midnight, its week masks alone otherwise: the holiday look-up is
+   exact) on the day d — so every theorem above, stated for arbitrary predicates, holds from such a start *)
+Theorem C05_subday : forall u d t,
+  ucal_is_bus_dt u d t = ucal_is_bus (ucal_at u t) d /\ ucal_is_settle_dt u d t = ucal_is_settle (ucal_at u t) d.
+Proof. exact (fun u d t => conj (ucal_is_bus_dt_at u d t) (ucal_is_settle_dt_at u d t)). Qed.
 
 Example C05_example :
   let bus := cal_is_bus (mkCal [5; 6] [19814]) in
